@@ -39,12 +39,15 @@ type c14Walker struct {
 	blocks [][]string
 }
 
-func c14Src(fset *token.FileSet, n ast.Node) string {
+func c14Src(fset *token.FileSet, n ast.Node) string { return c14SrcN(fset, n, 90) }
+
+// c14SrcN: source text of a node with all white space runs collapsed, cut after max bytes
+func c14SrcN(fset *token.FileSet, n ast.Node, max int) string {
 	var b bytes.Buffer
 	printer.Fprint(&b, fset, n)
 	s := strings.Join(strings.Fields(b.String()), " ")
-	if len(s) > 90 {
-		s = s[:90] + "…"
+	if len(s) > max {
+		s = s[:max] + "…"
 	}
 	return s
 }
